@@ -130,7 +130,7 @@ class NetFluxes(ReactiveFluxes):
         np.fill_diagonal(f, 0)
         Nf = dense(R)
         want = np.maximum(f - f.T, 0)
-        out = [('net-flux-is-positive-part', bool(np.allclose(Nf, want, atol=1e-10))),
+        out = [('net-flux-is-positive-part', bool(np.allclose(Nf, want, rtol=1e-6, atol=1e-13 * max(1e-300, float(np.abs(f).max()))))),
                ('at-most-one-direction', bool(np.all((Nf * Nf.T) <= 1e-18)))]
         rev = bool(np.allclose(pi[:, None] * T, (pi[:, None] * T).T, atol=1e-10))
         if rev:
